@@ -12,13 +12,13 @@ from .. import replay
 PROP = "C05"
 INV = ("Aligned", "NoDupAtoms", "BondsInside")
 PROPS = ("KeepsGiven", "MovesExactlySelected", "DeleteRemovesExactlyIncident", "FailedIsNoOp")
-ACTIONS = ("AddAtom", "AppendAtom", "Connect", "AppendBond", "AppendBonds2", "DelBond", "DelAtomObj", "DelAtomIdx", "DelAtomLabel",
+ACTIONS = ("AddAtom", "NewAtom", "AppendAtom", "Connect", "AppendBond", "AppendBonds2", "DelBond", "DelAtomObj", "DelAtomIdx", "DelAtomLabel",
            "DelAtomElem", "RemoveSubstituent", "AddH", "SubTranslate", "Clone", "MakeView", "ViewTranslate")
 
 
-def cfg(ids, fresh, maxlive, charges, dev="DevNone", maxview=1, maxpar=0, ap="AP1"):
+def cfg(ids, fresh, maxlive, charges, dev="DevNone", maxview=1, maxpar=0, ap="AP1", withnew=False):
     return dict(spec="Spec", constants={"AtomId": f"<- {ids}", "Fresh": f"<- {fresh}", "FreshAP": f"<- {ap}", "ElemOf": "<- ElemM", "LabelOf": "<- LabelM",
-                                        "Valence": "<- ValM", "QGiven": "<- QG", "MaxLive": maxlive, "MaxView": maxview, "MaxPar": maxpar,
+                                        "Valence": "<- ValM", "QGiven": "<- QG", "MaxLive": maxlive, "MaxView": maxview, "MaxPar": maxpar, "WithNew": "TRUE" if withnew else "FALSE",
                                         "HasCharges": "TRUE" if charges else "FALSE", "Deviations": f"<- {dev}"},
                 invariants=INV, properties=PROPS, view="View")
 
@@ -41,10 +41,12 @@ def norm_act(a):
     return a
 
 
-def one(tier, seed, ev, rep, kind, ids, fresh, maxlive, budget, maxview=1, maxpar=0, ap="AP1"):
+def one(tier, seed, ev, rep, kind, ids, fresh, maxlive, budget, maxview=1, maxpar=0, ap="AP1", withnew=False):
     from ..adapters.moledit import MolEditAdapter
-    c = cfg(ids, fresh, maxlive, kind == "Molecule", maxview=maxview, maxpar=maxpar, ap=ap)
+    c = cfg(ids, fresh, maxlive, kind == "Molecule", maxview=maxview, maxpar=maxpar, ap=ap, withnew=withnew)
     skip = set()
+    if not withnew:
+        skip |= {"NewAtom"}
     if maxview == 0:
         skip |= {"MakeView", "ViewTranslate"}
     if fresh == "Fr0":
@@ -81,7 +83,7 @@ def trace_cfg(kind):
     return dict(spec="TraceSpec", constants={
         "AtomId": "<- TraceIds", "Fresh": "<- TraceFresh", "FreshAP": "<- TraceFreshAP", "ElemOf": "<- TraceElem",
         "LabelOf": "<- TraceLabel", "Valence": "<- TraceVal", "QGiven": "<- TraceQ", "MaxLive": 100000, "MaxView": 100000,
-        "MaxPar": 100000,
+        "MaxPar": 100000, "WithNew": "TRUE",
         "HasCharges": "TRUE" if kind == "Molecule" else "FALSE", "Deviations": "<- DevNone"},
         invariants=("NoDupAtoms", "BondsInside"))
 
@@ -131,7 +133,7 @@ def run(tier, seed, replay_path):
             for dev in ("DevNoneCharge", "DevKeepBonds", "DevWrongRow")]
     if tier == "quick":
         jobs += [lambda: one(tier, seed, ev, rep, "Molecule", "Ids3", "Fr1", 2, budget=25, maxview=1),
-                 lambda: one(tier, seed, ev, rep, "Structure", "Ids3", "Fr1", 2, budget=10, maxview=0),
+                 lambda: one(tier, seed, ev, rep, "Structure", "Ids3", "Fr1", 2, budget=15, maxview=1, withnew=True),
                  # three live atoms, parallel bonds and the batch forms; no library-created atoms (keeps the graph small)
                  lambda: one(tier, seed, ev, rep, "Molecule", "Ids3", "Fr0", 3, budget=25, maxview=0, maxpar=1, ap="AP0"),
                  lambda: direction_b(tier, seed, ev, rep)]
@@ -146,7 +148,7 @@ def run(tier, seed, replay_path):
         one(tier, seed, ev, rep, "Molecule", "Ids3", "Fr1", 2, budget=150, maxview=2)
         one(tier, seed, ev, rep, "Structure", "Ids3", "Fr1", 2, budget=90, maxview=1)
         one(tier, seed, ev, rep, "Molecule", "Ids3", "Fr0", 3, budget=120, maxview=0, maxpar=1, ap="AP0")
-        one(tier, seed, ev, rep, "Structure", "Ids3", "Fr1", 2, budget=60, maxview=1, maxpar=1)
+        one(tier, seed, ev, rep, "Structure", "Ids3", "Fr1", 2, budget=90, maxview=1, maxpar=1, withnew=True)
         one(tier, seed, ev, rep, "Structure", "Ids4", "Fr1", 3, budget=200, maxview=0, maxpar=1)
         direction_b(tier, seed, ev, rep)
     ev.set(rule="one case = one (model state, edit call) pair of the TLC graph replayed on a real Molecule/Structure; the "
